@@ -493,12 +493,17 @@ pub enum Lie {
     Zero,
     HalfMax,
     Max,
+    /// honest on the first `len()` call, one too small on every later call (a length that is
+    /// not idempotent)
+    LaterMinus1,
+    /// honest on the first `len()` call, two too large on every later call
+    LaterPlus2,
 }
 
 impl Lie {
     pub fn apply(self, n: usize) -> usize {
         match self {
-            Lie::Honest => n,
+            Lie::Honest | Lie::LaterMinus1 | Lie::LaterPlus2 => n,
             Lie::Minus1 => n.saturating_sub(1),
             Lie::Plus1 => n + 1,
             Lie::Plus2 => n + 2,
@@ -518,6 +523,18 @@ pub struct SimSource<E> {
 pub struct SimIter<E> {
     items: VecDeque<E>,
     lie: Lie,
+    len_calls: Cell<u32>,
+}
+
+impl<E> SimIter<E> {
+    fn reported(&self, first_call: bool) -> usize {
+        let n = self.items.len();
+        match self.lie {
+            Lie::LaterMinus1 if !first_call => n.saturating_sub(1),
+            Lie::LaterPlus2 if !first_call => n + 2,
+            l => l.apply(n),
+        }
+    }
 }
 
 impl<E> IntoIterator for SimSource<E> {
@@ -526,7 +543,7 @@ impl<E> IntoIterator for SimSource<E> {
     fn into_iter(self) -> SimIter<E> {
         // `self.items` is moved out first so that a fault here drops the items normally
         let SimSource { items, lie } = self;
-        let it = SimIter { items, lie };
+        let it = SimIter { items, lie, len_calls: Cell::new(0) };
         tick(K_INTO_ITER);
         it
     }
@@ -539,7 +556,7 @@ impl<E> Iterator for SimIter<E> {
         self.items.pop_front()
     }
     fn size_hint(&self) -> (usize, Option<usize>) {
-        let n = self.lie.apply(self.items.len());
+        let n = self.reported(self.len_calls.get() == 0);
         (n, Some(n))
     }
 }
@@ -554,7 +571,9 @@ impl<E> DoubleEndedIterator for SimIter<E> {
 impl<E> ExactSizeIterator for SimIter<E> {
     fn len(&self) -> usize {
         tick(K_LEN);
-        self.lie.apply(self.items.len())
+        let first = self.len_calls.get() == 0;
+        self.len_calls.set(self.len_calls.get() + 1);
+        self.reported(first)
     }
 }
 
